@@ -129,7 +129,7 @@ theorem clearLoop_spec : ∀ (l : Forest) (s : Store) (fuel : Nat), Down s l →
       · exact r5.dead k hkts
       · rw [r5.other k hkts]
         rcases hk with rfl | hk | hk
-        · exact ⟨_, by rw [r4 k]; simp, rfl⟩
+        · exact ⟨{ tn with next := none, prev := none, parent := none, children := none, alive := false }, by rw [r4 k]; simp, rfl⟩
         · obtain ⟨m, hm, hd⟩ := r2.dead k hk
           have hki : k ≠ i := by rintro rfl; exact hni (Or.inl hk)
           exact ⟨m, by rw [r4 k, if_neg hki, u3.2.2 k, if_neg hki]; exact hm, hd⟩
